@@ -538,6 +538,49 @@ pub fn run(tier: Tier, _replay: Option<String>, part: Option<usize>) -> i32 {
         }
         closure_json.push(json!({"output": label, "output_bytes": len, "closures": len + 1, "abnormal": bad}));
     }
+    // ---- 2b. a fatal framing error in mid-stream on the real binary, in the modes that step over payloads by seeking
+    //      (offset to the next RDH below the header size: 0, 1, 16, 63; too large: 10065, 0xFFFF)
+    {
+        let (_, clean) = streams::multi_link(2, 6, 0, false, false);
+        let (walked, _) = stream::walk(&clean);
+        let mut fcases: Vec<(Vec<u8>, Vec<String>, bool, String)> = Vec::new();
+        let sv = |a: &[&str]| a.iter().map(|x| x.to_string()).collect::<Vec<_>>();
+        for off in [0u16, 1, 16, 63, 10065, 0xFFFF] {
+            for k in [1usize, walked.len() / 2, walked.len() - 1] {
+                let mut b = clean.clone();
+                let o = walked[k].offset as usize;
+                b[o + 8..o + 10].copy_from_slice(&off.to_le_bytes());
+                for (mi, m) in [sv(&["check", "sanity"]), sv(&["check", "all"]), sv(&["view", "rdh"]), sv(&["-f", "31", "-o", "out.raw"]), sv(&["check", "all", "its"])].into_iter().enumerate() {
+                    fcases.push((b.clone(), m, (mi + k) % 2 == 0, format!("offset to next = {off} at packet {k}")));
+                }
+            }
+        }
+        let fres = par_map(&fcases, |_, (b, m, stdin, _)| {
+            let scratch = Scratch::new("c17f");
+            let mut a: Vec<String> = if *stdin { vec![] } else { vec![scratch.file("in.raw", b).display().to_string()] };
+            a.extend(m.iter().cloned());
+            let mut run = Run::new(&a).cwd(&scratch.path).timeout_s(10);
+            if *stdin {
+                run = run.stdin(b);
+            }
+            let r = run.run();
+            if r.timed_out {
+                Some(("timeout".to_string(), "no exit within 10 s".to_string()))
+            } else if let Some(sig) = r.signal {
+                Some((format!("signal-{sig}"), r.stderr_str().lines().find(|l| l.contains("panicked at")).unwrap_or("").to_string()))
+            } else if r.stderr_str().contains("panicked at") {
+                Some(("panic-text".to_string(), r.stderr_str().lines().find(|l| l.contains("panicked at")).unwrap_or("").to_string()))
+            } else {
+                None
+            }
+        });
+        for ((b, m, stdin, label), r) in fcases.iter().zip(fres.iter()) {
+            if let Some((kind, site)) = r {
+                rep.violation(Violation { signature: format!("fatal-framing:{kind}"), description: format!("{label}, `{}` from {}: {kind} {site}", m.join(" "), if *stdin { "stdin" } else { "a file" }), replay: json!({"args": m, "stdin": stdin, "input_hex": fp_model::util::hex(b)}) });
+            }
+        }
+        rep.cov("fatal_framing_cli_cases", json!(fcases.len()));
+    }
     // ---- 5. real OS signals on the real binary
     let sig_json = real_signals(&mut rep);
     rep.cov("real_signal_cases", sig_json);
